@@ -965,3 +965,152 @@ pub fn probe_many_mut<K: KeyT, V: ValT>(s: &mut MapSut<K, V>, universe: u8, stat
     stats.probe(count);
     Ok(())
 }
+
+// ---------------------------------------------------------------------------
+// Wrapper-level API surface of HashMap that the transition alphabet does not use
+// (checked in every visited state on a fresh replay): mutation through iter_mut /
+// values_mut, Index, occupied-entry accessors, raw occupied accessors, by-reference
+// Extend impls (Copy flavours), FromIterator.
+// ---------------------------------------------------------------------------
+
+pub fn probe_wrappers<K: KeyT, V: ValT>(rebuild: &dyn Fn() -> MapSut<K, V>, sut: &mut MapSut<K, V>, universe: u8, stats: &Stats) -> Result<(), String> {
+    use hashbrown::hash_map::{Entry, RawEntryMut};
+    let mut count = 0u64;
+    // mutation through values_mut / iter_mut persists, in the right entries
+    {
+        let mut s = rebuild();
+        for v in s.map.values_mut() {
+            v.set_tok(v.tok() ^ 0x0100_0000);
+        }
+        for e in s.model.iter_mut() {
+            e.2 ^= 0x0100_0000;
+        }
+        s.check_all(universe, true, true).map_err(|m| format!("after writing through values_mut(): {m}"))?;
+        for (k, v) in s.map.iter_mut() {
+            v.set_tok(0x0200_0000 + k.id() as u32);
+        }
+        for e in s.model.iter_mut() {
+            e.2 = 0x0200_0000 + e.0 as u32;
+        }
+        s.check_all(universe, true, true).map_err(|m| format!("after writing through iter_mut(): {m}"))?;
+        for (k, v) in &mut s.map {
+            v.set_tok(0x0300_0000 + k.id() as u32);
+        }
+        for e in s.model.iter_mut() {
+            e.2 = 0x0300_0000 + e.0 as u32;
+        }
+        s.check_all(universe, true, true).map_err(|m| format!("after writing through (&mut map).into_iter(): {m}"))?;
+        s.finish()?;
+        count += 3;
+    }
+    // Index
+    for id in 0..universe {
+        let want = sut.mpos(id).map(|p| sut.model[p].2);
+        let map = &sut.map;
+        let r = env::catch(|| map[&KeyRef(id)].tok());
+        match (r, want) {
+            (Ok(t), Some(w)) if t == w => {}
+            (Err(_), None) => {}
+            (r, w) => return Err(format!("map[&key {id}] gave {:?}, reference {:?} (absent keys must panic)", r.ok(), w)),
+        }
+        count += 1;
+    }
+    // occupied-entry and raw-occupied accessors on every present key
+    for id in 0..universe {
+        if let Some(p) = sut.mpos(id) {
+            let m = sut.model[p];
+            let mut s = rebuild();
+            if let Entry::Occupied(mut o) = s.map.entry(K::make(id, 1)) {
+                if o.key().tok() != m.1 || o.get().tok() != m.2 {
+                    return Err(format!("OccupiedEntry::key/get of {id} = ({}, {}), reference ({}, {})", o.key().tok(), o.get().tok(), m.1, m.2));
+                }
+                o.get_mut().set_tok(41);
+                o.into_mut().set_tok(42);
+            } else {
+                return Err(format!("entry({id}) vacant for a present key"));
+            }
+            let q = s.mpos(id).unwrap();
+            s.model[q].2 = 42;
+            s.check_all(universe, true, true).map_err(|e| format!("after OccupiedEntry::get_mut/into_mut on {id}: {e}"))?;
+            match s.map.raw_entry_mut().from_key(&KeyRef(id)) {
+                RawEntryMut::Occupied(mut o) => {
+                    if o.key().tok() != m.1 || o.get().tok() != 42 || o.get_key_value().0.id() != id {
+                        return Err(format!("RawOccupiedEntryMut accessors of {id} disagree with the reference"));
+                    }
+                    o.get_mut().set_tok(43);
+                    {
+                        let (k, v) = o.get_key_value_mut();
+                        if k.id() != id {
+                            return Err("get_key_value_mut returned another key".into());
+                        }
+                        v.set_tok(44);
+                    }
+                    let (k, v) = o.into_key_value();
+                    if k.id() != id {
+                        return Err("into_key_value returned another key".into());
+                    }
+                    v.set_tok(45);
+                }
+                RawEntryMut::Vacant(_) => return Err(format!("raw_entry_mut().from_key({id}) vacant for a present key")),
+            }
+            s.model[q].2 = 45;
+            s.check_all(universe, true, true).map_err(|e| format!("after RawOccupiedEntryMut accessors on {id}: {e}"))?;
+            s.finish()?;
+            count += 2;
+        }
+    }
+    // FromIterator / Extend of owned pairs into a fresh map equal the model
+    {
+        let s = rebuild();
+        let pairs: Vec<(K, V)> = s.map.iter().map(|(k, v)| (K::make(k.id(), k.tok()), V::make(v.tok()))).collect();
+        let m2: Map<K, V> = pairs.into_iter().collect();
+        if !(m2 == s.map) || m2.len() != s.model.len() {
+            return Err("FromIterator of the map's own pairs is not equal to it".into());
+        }
+        drop(m2);
+        s.finish()?;
+        count += 1;
+    }
+    stats.probe(count);
+    Ok(())
+}
+
+/// By-reference Extend impls exist only for Copy keys and values.
+pub fn probe_extend_refs(rebuild: &dyn Fn() -> MapSut<PKey, PVal>, sut: &mut MapSut<PKey, PVal>, universe: u8, stats: &Stats) -> Result<(), String> {
+    let mut count = 0;
+    for id in 0..universe {
+        let id2 = (id + 1) % universe.max(1);
+        // Extend<(&K, &V)>
+        {
+            let mut s = rebuild();
+            let items = [(PKey::make(id, 7001), PVal(7002)), (PKey::make(id2, 7003), PVal(7004)), (PKey::make(id, 7005), PVal(7006))];
+            s.map.extend(items.iter().map(|(k, v)| (k, v)));
+            for (k, v) in items.iter() {
+                match s.mpos(k.id) {
+                    Some(p) => s.model[p].2 = v.0,
+                    None => s.model.push((k.id, k.tok, v.0)),
+                }
+            }
+            s.check_all(universe, true, true).map_err(|m| format!("after extend by (&K, &V) with keys {id}, {id2}, {id}: {m}"))?;
+            s.finish()?;
+        }
+        // Extend<&(K, V)>
+        {
+            let mut s = rebuild();
+            let items = [(PKey::make(id, 7101), PVal(7102)), (PKey::make(id2, 7103), PVal(7104))];
+            s.map.extend(items.iter());
+            for (k, v) in items.iter() {
+                match s.mpos(k.id) {
+                    Some(p) => s.model[p].2 = v.0,
+                    None => s.model.push((k.id, k.tok, v.0)),
+                }
+            }
+            s.check_all(universe, true, true).map_err(|m| format!("after extend by &(K, V) with keys {id}, {id2}: {m}"))?;
+            s.finish()?;
+        }
+        count += 2;
+    }
+    let _ = sut;
+    stats.probe(count);
+    Ok(())
+}
